@@ -1,22 +1,13 @@
 //! C01 - addition and subtraction are exact or signal overflow.
 
 use crate::common::*;
-use crate::with_int;
+use crate::{assign_forms, forms, with_int};
 use engine::{Ctx, Prop, Tier};
 use fpdec::{CheckedAdd, CheckedSub, Decimal};
 use oracle::Big;
 use proptest::prelude::*;
 use serde::{Deserialize, Serialize};
 use std::ops::{Add, AddAssign, Sub, SubAssign};
-
-#[derive(Clone, Copy, Debug, Hash, PartialEq, Eq, Serialize, Deserialize)]
-pub enum Rhs {
-    Dec(D),
-    /// integer on the right: x op i
-    IntR(I),
-    /// integer on the left: i op x
-    IntL(I),
-}
 
 #[derive(Clone, Debug, Hash, PartialEq, Eq, Serialize, Deserialize)]
 pub struct Case {
@@ -97,45 +88,6 @@ fn int_edge() -> BoxedStrategy<Case> {
             Case { x, y: if left { Rhs::IntL(i) } else { Rhs::IntR(i) } }
         })
         .boxed()
-}
-
-macro_rules! forms {
-    // all operand forms of a binary trait method for operands a, b
-    ($tr:ident :: $m:ident, $wrap:ident, $a:expr, $b:expr) => {{
-        let a = $a;
-        let b = $b;
-        vec![
-            ("a op b", $wrap(|| $tr::$m(a, b))),
-            ("&a op b", $wrap(|| $tr::$m(&a, b))),
-            ("a op &b", $wrap(|| $tr::$m(a, &b))),
-            ("&a op &b", $wrap(|| $tr::$m(&a, &b))),
-        ]
-    }};
-}
-
-macro_rules! assign_forms {
-    ($tr:ident :: $m:ident, $a:expr, $b:expr) => {{
-        let a: Decimal = $a;
-        let b = $b;
-        vec![
-            (
-                "a op= b",
-                op(|| {
-                    let mut t = a;
-                    $tr::$m(&mut t, b);
-                    t
-                }),
-            ),
-            (
-                "a op= &b",
-                op(|| {
-                    let mut t = a;
-                    $tr::$m(&mut t, &b);
-                    t
-                }),
-            ),
-        ]
-    }};
 }
 
 impl Prop for C01 {
